@@ -8,6 +8,7 @@ import (
 	"context"
 	"encoding/json"
 	"fmt"
+	"runtime"
 	"strconv"
 	"strings"
 	"sync"
@@ -41,6 +42,9 @@ type Event struct {
 	Beh   string `json:"beh,omitempty"`   // plain | nested | gated
 	Depth int    `json:"depth,omitempty"` // nested: number of sequential nested requests the handler makes (1-3)
 	Con   bool   `json:"con,omitempty"`
+	// NoWait: the event is applied right behind the previous one, without waiting for quiescence
+	// (a burst: messages pile up in the receive queue while the handler is still busy)
+	NoWait bool `json:"noWait,omitempty"`
 }
 
 type Scenario struct {
@@ -123,6 +127,10 @@ func Exec(t *testing.T, sc Scenario, r *evid.Run) *evid.Failure {
 				case <-gates[id]:
 				case <-c.Done():
 				}
+			case "busy": // takes a while but never blocks
+				for k := 0; k < 200; k++ {
+					runtime.Gosched()
+				}
 			}
 			_ = setResponse(codes.Content)
 			mu.Lock()
@@ -137,7 +145,9 @@ func Exec(t *testing.T, sc Scenario, r *evid.Run) *evid.Failure {
 				options.WithLimitClientParallelRequest(64), options.WithLimitClientEndpointParallelRequest(64),
 				options.WithTransmission(64, 2*time.Second, 2),
 				options.WithHandlerFunc(udpClient.HandlerFunc(func(rw *responsewriter.ResponseWriter[*udpClient.Conn], rq *pool.Message) {
-					handle(rw.Conn(), rq, func(code codes.Code) error { return rw.SetResponse(code, message.TextPlain, bytes.NewReader([]byte("ok"))) })
+					handle(rw.Conn(), rq, func(code codes.Code) error {
+						return rw.SetResponse(code, message.TextPlain, bytes.NewReader([]byte("ok")))
+					})
 				})),
 			}...)
 			cc, w = c, wire.UDP(link)
@@ -148,7 +158,9 @@ func Exec(t *testing.T, sc Scenario, r *evid.Run) *evid.Failure {
 				options.WithBlockwise(false, 6, time.Second), options.WithReceivedMessageQueueSize(sc.Queue), options.WithCloseSocket(),
 				options.WithLimitClientParallelRequest(64), options.WithLimitClientEndpointParallelRequest(64),
 				options.WithHandlerFunc(tcpClient.HandlerFunc(func(rw *responsewriter.ResponseWriter[*tcpClient.Conn], rq *pool.Message) {
-					handle(rw.Conn(), rq, func(code codes.Code) error { return rw.SetResponse(code, message.TextPlain, bytes.NewReader([]byte("ok"))) })
+					handle(rw.Conn(), rq, func(code codes.Code) error {
+						return rw.SetResponse(code, message.TextPlain, bytes.NewReader([]byte("ok")))
+					})
 				})),
 			}...)
 			if err != nil {
@@ -183,8 +195,10 @@ func Exec(t *testing.T, sc Scenario, r *evid.Run) *evid.Failure {
 		}
 		var wg sync.WaitGroup
 		for k, e := range sc.Events {
-			bubble.Wait()
-			scan()
+			if !e.NoWait {
+				bubble.Wait()
+				scan()
+			}
 			switch e.Kind {
 			case "inject":
 				nextMID++
@@ -333,7 +347,7 @@ func Exec(t *testing.T, sc Scenario, r *evid.Run) *evid.Failure {
 	// arrival order, when no handler ever blocks and nothing else uses the connection
 	allPlain := !closed
 	for _, e := range sc.Events {
-		if (e.Kind == "inject" && e.Beh != "plain") || e.Kind == "app" {
+		if (e.Kind == "inject" && e.Beh != "plain" && e.Beh != "busy") || e.Kind == "app" {
 			allPlain = false
 		}
 	}
@@ -389,8 +403,9 @@ func gen(t *rapid.T) Scenario {
 		case "inject":
 			e.ID = id
 			id++
-			e.Beh = "plain"
+			e.Beh = rapid.SampledFrom([]string{"plain", "plain", "busy"}).Draw(t, "plainbeh")
 			e.Con = rapid.Bool().Draw(t, "con")
+			e.NoWait = i > 0 && sc.Events[i-1].Kind == "inject" && rapid.IntRange(0, 2).Draw(t, "nowait") > 0
 			if !allPlain {
 				e.Beh = rapid.SampledFrom([]string{"plain", "plain", "nested", "nested", "gated"}).Draw(t, "beh")
 			}
@@ -451,12 +466,19 @@ func TestCheck(t *testing.T) {
 				b, _ := json.Marshal(sc)
 				key = string(b)
 			}
-			r.Case("dispatch", key, func() any { return sc }, "dispatch/"+sc.Transport, fmt.Sprintf("dispatch/queue=%d", sc.Queue))
+			cls := []string{"dispatch/" + sc.Transport, fmt.Sprintf("dispatch/queue=%d", sc.Queue)}
+			for _, e := range sc.Events {
+				if e.NoWait {
+					cls = append(cls, "dispatch/burst")
+					break
+				}
+			}
+			r.Case("dispatch", key, func() any { return sc }, cls...)
 		}
 		return f
 	})
 	r.Main(evid.Meta{
-		Rule:        "a connection (datagram and stream, receive queue 0/1/16) in a synctest bubble; the scripted peer injects numbered requests whose handlers return at once, block on 1-3 sequential requests issued on the same connection, or block on a gate; it answers the nested requests after delivering further messages, other goroutines issue requests meanwhile, the connection may be closed at a generated point; each event is followed by quiescence. Oracle: every message injected while the connection is open reaches the handler exactly once; every nested request completes with its own response (so later messages — among them the awaited response — are processed while a handler waits); every handler finishes once gates are open and nested requests answered; application requests complete; with only non-blocking handlers and no other user of the connection the dispatch order equals the arrival order. Non-trivial = a handler waits on a nested request while a further message arrives; distinct by scenario",
+		Rule:        "a connection (datagram and stream, receive queue 0/1/16) in a synctest bubble; the scripted peer injects numbered requests whose handlers return at once, block on 1-3 sequential requests issued on the same connection, or block on a gate, or stay busy without blocking; messages arrive one by one (quiescence in between) or in bursts that pile up in the receive queue; it answers the nested requests after delivering further messages, other goroutines issue requests meanwhile, the connection may be closed at a generated point; Oracle: every message injected while the connection is open reaches the handler exactly once; every nested request completes with its own response (so later messages — among them the awaited response — are processed while a handler waits); every handler finishes once gates are open and nested requests answered; application requests complete; with only non-blocking handlers and no other user of the connection the dispatch order equals the arrival order. Non-trivial = a handler waits on a nested request while a further message arrives; distinct by scenario",
 		Assumptions: []string{"a handler that blocks on something other than its own connection (the gate) legitimately stalls later messages until it returns", "after close nothing is required of undelivered messages"},
 		Floor:       300,
 	}, eng)
